@@ -11,6 +11,9 @@
 // (k=f field, k=i inline fragment `... on T {}`, k=s named fragment: printed as a fragment definition + spread).
 // For exploration a case may instead carry "text" (GraphQL text) and "vars" (variables object).
 //
+// Lane "reuse" is lane raw with ONE datasource per plan id: NewDataSource is called for the first case of a plan id
+// and every later case with that id is only Load()ed (other variables), like an engine that caches the plan.
+//
 // Lane "raw": the printed text is parsed and handed to NewDataSource unchanged (the way the package's own
 // tests drive it). Lane "norm": it is first normalized exactly like graphql_datasource's printOperation does
 // before it constructs the gRPC datasource (extract variables, inline fragment spreads, remove fragment
@@ -66,6 +69,8 @@ type inCase struct {
 	Role  string          `json:"role"`
 	Lane  string          `json:"lane"`
 	Seed  int64           `json:"seed"`
+	Own   bool            `json:"ownvars"` // every argument occurrence gets its own variable (reuse groups: the text must not depend on the values)
+	Plan  string          `json:"plan"`    // reuse lane: cases with the same plan id share ONE planned datasource (NewDataSource once, many Loads)
 	OpRaw json.RawMessage `json:"op"`
 	Op    *gqlshape.Op    `json:"-"`
 	Text  string          `json:"text"`
@@ -89,6 +94,12 @@ type outCase struct {
 }
 
 var gqlSchema *gqlast.Schema
+
+// the datasource of the current reuse group (reuse lane)
+var reuse struct {
+	plan, sent string
+	ds         *grpcdatasource.DataSource
+}
 
 // directives products.graphqls uses without declaring them (federation)
 const sdlPrelude = `
@@ -162,7 +173,7 @@ func runCase(c *inCase, srv *server, schema *ast.Document, compiler *grpcdatasou
 	var fed []fedCfg = c.Fed
 	if c.Op != nil {
 		var vm map[string]json.RawMessage
-		text, vm = gqlshape.Print(c.Op)
+		text, vm = gqlshape.PrintVars(c.Op, !c.Own)
 		vars, _ = json.Marshal(vm)
 		for _, f := range c.Op.Fed {
 			fed = append(fed, fedCfg{Type: f.Type, Field: f.Field, Sel: f.Sel})
@@ -200,17 +211,32 @@ func runCase(c *inCase, srv *server, schema *ast.Document, compiler *grpcdatasou
 	for _, f := range fed {
 		fc = append(fc, plan.FederationFieldConfiguration{TypeName: f.Type, FieldName: f.Field, SelectionSet: f.Sel})
 	}
-	ds, err := grpcdatasource.NewDataSource(grpcdatasource.NewGRPCTransport(srv.conn), grpcdatasource.DataSourceConfig{
-		Operation:         &doc,
-		Definition:        schema,
-		SubgraphName:      "Products",
-		Compiler:          compiler,
-		Mapping:           mp,
-		FederationConfigs: fc,
-	})
-	if err != nil {
-		out.Stage, out.Err = "plan", err.Error()
-		return
+	var ds *grpcdatasource.DataSource
+	if c.Plan != "" && reuse.plan == c.Plan {
+		// reuse lane: the datasource planned for the first case of this plan id answers this request as well,
+		// as an engine does with a cached plan; only the variables may differ
+		if reuse.sent != sent {
+			out.Stage, out.Err = "reuse-text-differs", "operation text differs from the one the datasource was planned for"
+			return
+		}
+		ds = reuse.ds
+	} else {
+		var err error
+		ds, err = grpcdatasource.NewDataSource(grpcdatasource.NewGRPCTransport(srv.conn), grpcdatasource.DataSourceConfig{
+			Operation:         &doc,
+			Definition:        schema,
+			SubgraphName:      "Products",
+			Compiler:          compiler,
+			Mapping:           mp,
+			FederationConfigs: fc,
+		})
+		if err != nil {
+			out.Stage, out.Err = "plan", err.Error()
+			return
+		}
+		if c.Plan != "" {
+			reuse.plan, reuse.sent, reuse.ds = c.Plan, sent, ds
+		}
 	}
 	q, _ := json.Marshal(sent)
 	input := []byte(`{"query":` + string(q) + `,"body":{"variables":` + string(vars) + `}}`)
